@@ -484,13 +484,8 @@ HOUR_ONLY_Z = re.compile(r'^\S+ \d+ ?(UTC|Z)?$')
 
 
 def classify(case, failure, model_out):
-    if case['kind'] == 'cf' and HOUR_ONLY_Z.match(case['ref']) and (
-            failure.startswith('date2num') or failure.startswith('time2idx')):
-        return KEY_HZ
     if case['kind'] == 'cf' and case['cal'] in ('noleap', '365_day', 'all_leap', '366_day'):
         return KEY_YL
-    if case['kind'] == 'atv' and case['tstep'] >= 1000000 and ('time_bounds' in failure or not case['flags']):
-        return KEY_ATV
     return None
 
 
@@ -505,9 +500,7 @@ def nontrivial(case, res):
 
 def witnesses():
     return [(KEY_YL, dict(kind='cf', unit='days', cal='noleap', ref='2000-01-01 00:00:00', vals=['1/2', '3/2'], bnd='none')),
-            (KEY_YL, dict(kind='cf', unit='seconds', cal='noleap', ref='2000-01-01 00:00:00', vals=['86400', '172800'], bnd='none')),
-            (KEY_ATV, dict(kind='atv', sdate=2019001, stime=0, tstep=1000000, flags=None, n=3)),
-            (KEY_HZ, dict(kind='cf', unit='seconds', cal='standard', ref='2000-01-01 06Z', vals=['0', '24', '48'], bnd='none'))]
+            (KEY_YL, dict(kind='cf', unit='seconds', cal='noleap', ref='2000-01-01 00:00:00', vals=['86400', '172800'], bnd='none'))]
 
 
 def distribution(recs):
